@@ -1,6 +1,7 @@
 # Overrides the C06 entry of bin/props.py (props.d entries are merged after PROPS): same harness; record publication is now part of the
 # alphabet (a record on one channel is an operation of the BFS; the probe families choose what is published after every request), so the
 # rule/assumptions say so, and the caps follow the added work (quick +42 % executions, thorough +16 %).
+# Round 7: fault family (one experiment-state-file fault per history; landing oracle only): quick +3 % executions (3888), thorough depth 5.
 ENTRY = {
     "C06": {
         "pkg": ".", "hdir": "dastard", "harness": DASTARD_COMMON + ["zz_verif_files_test.go", "zz_verif_c06_test.go"], "test": "TestVerifC06",
@@ -14,11 +15,19 @@ ENTRY = {
                 "sequences to their depth bound with one of {no record, channel 0 only, channel 1 only, both} chosen after every request. In every "
                 "execution all files are decoded after a final STOP: a tagged record must be in the files of the run in force when it was published, once "
                 "per enabled type of an eligible channel, exactly when the state reported at that moment was active and not paused, and nowhere otherwise. "
-                "non-trivial = at least one START succeeded and at least one tagged record was published",
+                "Fault family (environment deviation, un-merged DFS): all sequences of the legal requests and UNPAUSE-with-label of a fixed length with ONE "
+                "I/O fault per history, placed before any request but the first: the experiment-state file open at that moment fails from then on (its "
+                "descriptor is closed under the server), so a later STOP / START / UNPAUSE-with-label returns an error part-way through; from the fault on "
+                "the outcome of a request is not judged (not that the state is unchanged, not that files are closed), only the landing clause above: a record "
+                "published after it is in the files of the reported run exactly when the state reported then was active and not paused (the final STOP of "
+                "the check may fail too and is judged the same way, by one more record). "
+                "non-trivial = at least one START succeeded and at least one tagged record was published (fault family: and a request returned an error after the fault)",
         "assumptions": ["requests issued directly on the source (the RPC layer's queueing is C11)",
                         "two channels, every projector assignment (channel 0 only, channel 1 only, both, none)",
                         "file types compared only while the state is active (STOP leaves the type flags as they were)",
                         "records are published one per channel and call (a batch of several records in one PublishData call is C05)",
-                        "the number of records a channel has stored in the current run enters the canonical state only as zero / non-zero"],
+                        "the number of records a channel has stored in the current run enters the canonical state only as zero / non-zero",
+                        "I/O faults are outside the property's quantifier; the fault family adds one kind only (the open experiment-state file fails from a chosen "
+                        "request on, simulated by closing its descriptor), one fault per history, one projector assignment, and judges only where records land"],
     },
 }
